@@ -7,7 +7,9 @@
                 down-sampling: max_r |c_r(w)| <= 2^(-bits) for tones from the stop-band start to input Nyquist, on a grid of
                 >= 16 points per side-lobe period plus the exact band edge;
                 up-sampling: every image line of every in-band tone (DFT over one period of c_r) <= 2^(-bits)
-  exploration   stop-band tones / image lines end to end for irrational ratios, engines, flags
+  exploration   end to end for irrational ratios / interpolated coefficients: sums of stop-band tones stratified over the whole
+                band from the configured stop-band start to input Nyquist (down), image lines of in-band tones (up)
+  cases         one member of every (plan class, knob) pair of the covering pool (checks/_signal.py cover)
   verdict       a frequency where the inequality fails is the failing tone: it is re-run end to end and reported.
 """
 import math
@@ -278,7 +280,7 @@ def job_stop(args):
         if "_multi" in kw:
             if not info.get("engine", "").startswith("cr") or S.bits_of(info) < 15:
                 return {"cfg": c, "label": S.cfg_label(c), "skipped": "property does not speak (precision < 15 bits)"}
-            if S.f1_exact(info):
+            if S.f1_known(info):
                 return {"cfg": c, "label": S.cfg_label(c), "skipped": "known finding F1 signature", "f1": True, "f1_linear": info["q"]["phase"] == 50}
             d = S.stop_multitone_job(c, kw["_multi"], nfit=kw["nfit"])
             d.update(cfg=c, label=S.cfg_label(c), seed=kw["_multi"])
